@@ -24,7 +24,14 @@ RECURSIVE Atomic(_)
 Atomic(gv) == IF gv.g = "m" THEN GMap([i \in 1..Len(gv.es) |-> << <<Sg(JoinSegs(gv.es[i][1]))>>, Atomic(gv.es[i][2]) >>])
               ELSE IF gv.g = "l" THEN GList([i \in 1..Len(gv.xs) |-> Atomic(gv.xs[i])])
               ELSE gv
-Case(doc) == [doc |-> doc, sep |-> NormIdeal(doc), nosep |-> NormIdeal(Atomic(doc))]
+\* C18, second sentence ("... and record where settings came from"), for errors raised while a setting is EXPANDED: the
+\* faulty setting is a setting of the document, so the error names the document's file.  One fault at a time is added to
+\* the document (at the top level, in a nested list, in an object) and read in every way the harness knows.
+RF(key, text, other, kind) == [key |-> key, text |-> text, other |-> other, kind |-> kind]
+RefFaults == << RF("zr", "${zmissing}", "", "missing"), RF("zs", "pre-${zmissing}-post", "", "missing-splice"),
+                RF("zn", "${zmissing.deep.er}", "", "missing-path"), RF("zc", "${zd}", "zd=${zc}", "cyclic"),
+                RF("zy", "x${zy}", "", "cyclic-self"), RF("zq", "${zmissing:?must be set}", "", "required") >>
+Case(doc) == [doc |-> doc, sep |-> NormIdeal(doc), nosep |-> NormIdeal(Atomic(doc)), faults |-> RefFaults]
 Vals1 == Scal \cup Inner
 Init == d1 \in Vals1 /\ cs = <<>>
 Next == /\ cs = <<>> /\ UNCHANGED d1
